@@ -31,7 +31,7 @@ ASSUMPTIONS = [
 def strategy_(draw, tier):
     spec = draw(sched.sched_specs(quiet=False, adaptive=True, force_last=True,
                                   precisions=(None, None, None, 1, 2),
-                                  deep=tier == 'thorough'))
+                                  deep=tier == 'thorough', decimal_ok=True))
     if draw(st.integers(0, 5)) == 0:
         # a zero-length forced call at the end ("flush"): whoever is behind
         # the clock is handed the remainder
@@ -60,7 +60,7 @@ def run_case(spec):
     from vivarium.core.engine import Engine
     from vivarium.processes.clock import Clock
     res = Result()
-    exact = spec['precision'] is None
+    exact = spec['precision'] is None and not spec.get('decimal')
     ctx = kit.Context(t0=spec['t0'], budget=sched.poll_budget(spec))
     try:
         ctx, engine, failure = execute(spec, ctx)
